@@ -10,8 +10,8 @@ ENGINE = {'name': 'select',
  'n_thorough': 6000,
  'timeout': 900,
  'serves': ['C10'],
- 'rule': 'pools: a corpus of past failures, every pool of size 0..3 (quick) / 0..4 (thorough) over 8 upstream-state kinds (idle, busy below limit, '
-         'busy unlimited, unhealthy, passively failed, full, two healthy peers, two peers one full), plus random pools of size 1..8 with 1..3 peers '
+ 'rule': 'pools: a corpus of past failures, every pool of size 0..3 (quick) / 0..4 (thorough) over 10 upstream-state kinds (idle, busy below limit, '
+         'busy unlimited, unhealthy, passively failed, full, two healthy peers, two peers with the second full / unhealthy / failed at exactly max_fails), plus random pools of size 1..8 with 1..3 peers '
          'each; every policy is run on every pool with the math/rand results it consumed recorded as oracle values; a case is non-trivial when the '
          'pool holds at least one available and one unavailable upstream; distinct = distinct (policy, pool state, oracle values, answer) terms',
  'trusted_base': ['math/rand (seeded global source) is replayed by the harness to obtain the values Select consumed; net.SplitHostPort is used by '
